@@ -12,6 +12,9 @@ pub trait Hx {
     /// the public ways to finalize: 0 Digest::finalize, 1 FixedOutput::finalize_fixed, 2 FixedOutput::finalize_into
     fn fin_how(self: Box<Self>, how: usize) -> Vec<u8>;
     fn fin(self: Box<Self>) -> Vec<u8>;
+    /// finalize straight into a caller-provided slice of exactly the output size (C16: the slice lives in guarded memory):
+    /// how 0 finalize_into (consuming clone), 1 finalize_into_reset, 2 finalize_into_dirty
+    fn fin_into_slice(&mut self, out: &mut [u8], how: usize);
     fn rst(&mut self);
     fn cl(&self) -> Box<dyn Hx>;
     fn as_any(&self) -> &dyn std::any::Any;
@@ -71,6 +74,13 @@ impl<D: Digest + digest::FixedOutput + digest::FixedOutputDirty + digest::Reset 
     }
     fn fin(self: Box<Self>) -> Vec<u8> {
         Digest::finalize(*self).to_vec()
+    }
+    fn fin_into_slice(&mut self, out: &mut [u8], how: usize) {
+        match how % 3 {
+            0 => digest::FixedOutput::finalize_into(self.clone(), digest::generic_array::GenericArray::from_mut_slice(out)),
+            1 => digest::FixedOutput::finalize_into_reset(self, digest::generic_array::GenericArray::from_mut_slice(out)),
+            _ => digest::FixedOutputDirty::finalize_into_dirty(self, digest::generic_array::GenericArray::from_mut_slice(out)),
+        }
     }
     fn rst(&mut self) {
         Digest::reset(self)
